@@ -38,7 +38,7 @@ TECHNIQUE = "Hypothesis op sequences through the real WebsocketLayer vs. message
 LEVEL_TEXT = ("Sampled op sequences; every relayed byte is decoded by independent peers and compared with a "
               "message-list model; sizes around the 4000-byte re-fragmentation threshold are generated on purpose.")
 LEVEL_NOTE = "trusts wsproto decoding and lib/driver.py"
-QUICK_N, THOROUGH_N = 5_000, 1_000_000
+QUICK_N, THOROUGH_N = 3_000, 1_000_000
 
 C, S = 0, 1
 OP_TEXT, OP_BIN, OP_CONT, OP_CLOSE, OP_PING, OP_PONG = 1, 2, 0, 8, 9, 10
